@@ -8,6 +8,7 @@ CONSTANTS
   OrderClass = "any"
   CycleCheck = "pair"
   Pass2Cancel = "fresh"
+  Outermost = "flush"
   PropagateDespiteCycle = FALSE
 SPECIFICATION Spec
 CHECK_DEADLOCK FALSE
